@@ -156,7 +156,7 @@ func (x *Xlat) stdlib(st *State, fr *Frame, out *Outcomes, ce *ast.CallExpr, rec
 	case "maps.Clone":
 		m := arg(0)
 		mt := types.Unalias(info.TypeOf(ce)).Underlying().(*types.Map)
-		r := x.allocRef(st, "mapclone")
+		r := x.allocRef(st, "mapclone", info.TypeOf(ce))
 		ks, vs := x.tm.SortOf(mt.Key()), x.tm.SortOf(mt.Elem())
 		dk, vk := mapDomKey(ks), mapValKey(ks, vs)
 		hd := x.get(st, dk, ArrSort(SRef, ArrSort(ks, SBool)))
